@@ -228,6 +228,8 @@ def run(chk):
 
     from lib import writeoffset
     writeoffset.run(chk)
+    from lib import disp8fits
+    disp8fits.run(chk)
     return chk.finish(
         level="other",
         explanation=("Bookkeeping rules over label/fixup handling in /repo's current source: label ids validated on the taken edge before "
